@@ -282,6 +282,16 @@ func registerSyncModels(e *Engine) {
 	m["(*sync.Pool).Get"] = func(x *Exec, fr *frame, a []Value) Value {
 		k, _ := x.syncKey(a[0])
 		pp := x.force(a[0]).(*Pointer)
+		// an object put back earlier on this path (by the earlier request of the history
+		// dimension, or by this request) may be handed out again, as it was left
+		if st := x.pools[k]; len(st) > 0 {
+			x.poolSeq++
+			if x.Branch(x.sym(fmt.Sprintf("pool!%d.reused", x.poolSeq), SBool)) {
+				obj := st[len(st)-1]
+				x.pools[k] = st[:len(st)-1]
+				return obj
+			}
+		}
 		var obj Value = NilIface
 		if nf, ok := x.force(x.getField(pp, poolT(), "New")).(*FuncV); ok && nf != nil && (nf.Fn != nil || nf.Native != nil) {
 			obj = x.callFuncV(fr, nf, nil, nil)
@@ -297,13 +307,16 @@ func registerSyncModels(e *Engine) {
 				x.assume(x.sym("hist.abortedclient", SBool))
 			}
 		} else if iv, ok := x.force(obj).(*IfaceV); ok && iv.T != nil {
-			x.bounds["sync.Pool of "+iv.T.String()+": only fresh objects (reuse not modelled)"] = 1
+			x.bounds["sync.Pool of "+iv.T.String()+": fresh objects, or objects put back earlier on the same path (earlier request of the history dimension)"] = 1
 		}
 		_ = k
 		return obj
 	}
 	m["(*sync.Pool).Put"] = func(x *Exec, fr *frame, a []Value) Value {
-		x.syncKey(a[0])
+		k, _ := x.syncKey(a[0])
+		if iv, ok := x.force(a[1]).(*IfaceV); ok && iv.T != nil {
+			x.pools[k] = append(x.pools[k], iv)
+		}
 		if bp, ok := isBufPtr(x, a[1]); ok {
 			als := x.bufAliases[bp.Cell]
 			if len(als) > 0 {
